@@ -50,6 +50,7 @@ func encodeEAN(code string) (bc barcode.BarcodeIntCS, err error, pv any) {
 
 // checkEAN returns true if the code was (rightly) accepted.
 func checkEAN(t TB, c EANCase) bool {
+	noteCase("C06", "ean", c)
 	code := string(c.Code)
 	bc, err, pv := encodeEAN(code)
 	if pv != nil {
@@ -67,6 +68,9 @@ func checkEAN(t TB, c EANCase) bool {
 	}
 	if want == "" {
 		failf(t, "C06", "ean", c, "invalid input accepted (content %q)", bc.Content())
+	}
+	if len(code)%5 == 2 { // 7 and 12 digit inputs: cheap enough to keep the exhaustive parts fast
+		disturb("ean")
 	}
 	m, merr := modules1D(bc)
 	if merr != nil {
@@ -95,7 +99,21 @@ func checkEAN(t TB, c EANCase) bool {
 	return true
 }
 
-func init() { register("ean", func(t TB, c EANCase) { checkEAN(t, c) }) }
+// checkEANRelated: the zero-extended EAN-13 of an EAN-8 number (and the EAN-8 of an EAN-13 with five leading zeros)
+// is a different symbol of the same numeric value; encoded right after it, it must still be its own symbol.
+func checkEANRelated(t TB, c EANCase) {
+	want := eanExpected(string(c.Code))
+	switch {
+	case len(want) == 8:
+		checkEAN(t, EANCase{Code: BStr("00000" + want)})
+		checkEAN(t, EANCase{Code: BStr("00000" + want[:7])})
+	case len(want) == 13 && want[:5] == "00000":
+		checkEAN(t, EANCase{Code: BStr(want[5:])})
+	}
+	checkEAN(t, c)
+}
+
+func init() { register("ean", func(t TB, c EANCase) { checkEANRelated(t, c) }) }
 
 func genEAN(t *rapid.T) string {
 	digits := func(n int) string {
@@ -179,10 +197,14 @@ func c06Account(st *Stats, code string, ok bool) {
 }
 
 func TestC06Rapid(t *testing.T) {
+	foreignWarmup("ean")
 	st := NewStats("C06", "rapid")
 	runRapid(t, st, func(rt *rapid.T) {
 		c := EANCase{Code: BStr(genEAN(rt))}
 		ok := checkEAN(rt, c)
+		if ok && rapid.IntRange(0, 2).Draw(rt, "related") == 0 {
+			checkEANRelated(rt, c)
+		}
 		c06Account(st, string(c.Code), ok)
 		st.Sample(fmt.Sprintf("len %d accepted=%v", len(c.Code), ok), c)
 	})
